@@ -347,4 +347,20 @@ theorem first_grp (f n a s c p) (hp : (mc f a s c).head? = some p) :
     (mc f (.grp n a) s c).head? = some (p.1, (n, s.take (s.length - p.1.length)) :: p.2) := by
   rw [mc_grp, List.head?_map, hp]; rfl
 
+/-- group around a match that consumed exactly `u` -/
+theorem first_grp_eq (f n a s c) (u t : Str) (c' : Caps) (hs : s = u ++ t)
+    (hp : (mc f a s c).head? = some (t, c')) :
+    (mc f (.grp n a) s c).head? = some (t, (n, u) :: c') := by
+  rw [mc_grp, List.head?_map, hp]; subst hs; simp
+
+theorem mc_lit_cat (f d X v c) : mc f (.cat (Re.lit d) X) (d :: v) c = mc f X v c := by
+  rw [Re.lit, mc_cat, mc_cls_cons]
+  have : (Cls.lit d).mem d = true := by simp [Cls.lit, Cls.mem]
+  rw [this]; simp
+
+theorem mc_lit_self (f d v c) : mc f (Re.lit d) (d :: v) c = [(v, c)] := by
+  rw [Re.lit, mc_cls_cons]
+  have : (Cls.lit d).mem d = true := by simp [Cls.lit, Cls.mem]
+  rw [this]; rfl
+
 end PM.First
